@@ -41,11 +41,11 @@ EQPool(z) ==
   \cup UNION {WithWraps(RepsOf(v, NR2, AR, OR), {<<>>, <<"ptr">>}) : v \in PlainContainers}
 
 \* ------------------------------------------------------------ uniqueItems / enum / const
-UAElems == {Num(R_0), Num(R_m1), Str("1"), Null, Bool(TRUE), Arr(<<Num(R_m1)>>), Obj([a |-> Num(R_0)])}
+UAElems == {Num(R_0), Num(R_m1), Str("1"), Null, Bool(TRUE), Arr(<<Num(R_m1)>>), Obj([a |-> Num(R_0)]), Num(R_2p63)}
                \cup (IF K >= 2 THEN {Str("a"), Num(R_2), Obj([a |-> Num(R_1), b |-> Num(R_2)])} ELSE {})
 UAPlain(z) == {Arr(e) : e \in UNION {[1..n -> UAElems] : n \in 0..(IF K >= 2 THEN 3 ELSE 2)}}
               \cup {Arr(<<Num(R_1), Num(R_2), Num(R_0), x, Num(R_1h)>>) : x \in {Num(R_1), Num(R_4), Num(R_0)}}
-UAReps(v) == RepsOf(v, IF K >= 2 THEN {"float64", "int", "jsonNumber"} ELSE {"float64", "jsonNumber", "negzero"}, {"any", "arrayany", "array"}, IF K >= 2 THEN {"any", "typed"} ELSE {"any"})
+UAReps(v) == RepsOf(v, IF K >= 2 THEN {"float64", "int", "jsonNumber", "uint64"} ELSE {"float64", "jsonNumber", "negzero", "uint64"}, {"any", "arrayany", "array"}, IF K >= 2 THEN {"any", "typed"} ELSE {"any"})
 UASchemas == <<[uniqueItems |-> TRUE],
                [enum |-> <<Num(R_1), Str("a"), Arr(<<Num(R_m1)>>), Obj([a |-> Num(R_1)]), Arr(<<Num(R_1), Num(R_m1)>>), Null>>],
                [const |-> Arr(<<Num(R_m1)>>)], [const |-> Arr(<<Num(R_1), Num(R_1)>>)],
@@ -59,9 +59,12 @@ RVPlain ==
    Arr(<<Num(R_1), Num(R_1)>>), Arr(<<Num(R_1), Num(R_3)>>), Arr(<<Str("a")>>), Arr(<<Arr(<<Num(R_1)>>)>>), Num(R_0),
    Arr(<<Arr(<<Num(R_1)>>), Arr(<<Num(R_1)>>)>>), Arr(<<Num(R_0), Num(R_0)>>),
    Obj([a |-> Num(R_1)]), Obj([a |-> Num(R_3), b |-> Num(R_1)]), Obj([a |-> Arr(<<Num(R_1)>>)]),
-   Arr(<<Obj([a |-> Num(R_1)])>>), Obj([ab |-> Str("a")]), EmptyObj, EmptyArr}
+   Arr(<<Obj([a |-> Num(R_1)])>>), Obj([ab |-> Str("a")]), EmptyObj, EmptyArr,
+   \* integers beyond int64 (exact in uint64 and float64) and at its edge
+   Num(R_2p63), Arr(<<Num(R_2p63), Num(R_2p63)>>), Arr(<<Num(R_i64max), Num(R_i64max)>>),
+   Arr(<<Obj([a |-> Num(R_2p63)]), Obj([a |-> Num(R_2p63)])>>), Arr(<<Num(R_i64min), Num(R_i64min)>>)}
 RVReps(z) ==
-  UNION {WithWraps(RepsOf(v, IF K >= 2 THEN NR1 ELSE {"float64", "int", "jsonNumberE", "jsonNumber"}, AR, OR),
+  UNION {WithWraps(RepsOf(v, IF K >= 2 THEN NR1 ELSE {"float64", "int", "jsonNumberE", "jsonNumber", "uint64"}, AR, OR),
                    IF v.t \in {"arr", "obj"} THEN {<<>>, <<"ptr">>} ELSE Wraps) : v \in RVPlain}
 IntS == [type |-> "integer"]
 RVSchemas ==
